@@ -57,6 +57,8 @@ var powerSets = [][]int64{
 	{10, 10, 5, 3, 1, 1},
 	{3, 3, 2, 2, 1, 1, 1},
 	{4, 3, 3},
+	{58617, 17803, 79, 24, 2}, // skewed: priority rescaling is active while rounds are skipped
+	{1000, 300, 7, 1},
 }
 
 func kv(op string) map[string]string {
@@ -81,7 +83,6 @@ type world struct {
 	genDoc    *types.GenesisDoc
 	state     sm.State
 	proposers []int
-	pathIndep bool
 }
 
 var (
@@ -129,13 +130,13 @@ func getWorld(powers []int64) *world {
 	if err != nil {
 		panic(err)
 	}
-	w := &world{genDoc: gd, state: st, pathIndep: true}
+	w := &world{genDoc: gd, state: st}
 	for _, v := range st.Validators.Validators {
 		w.powers = append(w.powers, v.VotingPower)
 		w.keys = append(w.keys, keyByAddr[string(v.Address)])
 	}
-	// proposer after k single increments, and path independence of IncrementProposerPriority
-	// (enterNewRound increments by the number of skipped rounds at once)
+	// proposer after k single increments (enterNewRound performs one increment per round, also when
+	// rounds are skipped)
 	singles := make([]*types.ValidatorSet, maxRounds+1)
 	singles[0] = st.Validators.Copy()
 	for r := 1; r <= maxRounds; r++ {
@@ -145,16 +146,6 @@ func getWorld(powers []int64) *world {
 	for r := 0; r <= maxRounds; r++ {
 		idx, _ := st.Validators.GetByAddress(singles[r].GetProposer().Address)
 		w.proposers = append(w.proposers, int(idx))
-	}
-	for a := 0; a < maxRounds && w.pathIndep; a++ {
-		for b := a + 1; b <= maxRounds; b++ {
-			c := singles[a].Copy()
-			c.IncrementProposerPriority(int32(b - a))
-			if c.GetProposer().Address.String() != singles[b].GetProposer().Address.String() {
-				w.pathIndep = false
-				break
-			}
-		}
 	}
 	worlds[k] = w
 	return w
@@ -1063,13 +1054,7 @@ func (g *gen) move() {
 }
 
 func genCase(r *rand.Rand, kind string, minOps, maxOps int) core.Case {
-	var w *world
-	for {
-		w = getWorld(powerSets[r.Intn(len(powerSets))])
-		if w.pathIndep {
-			break
-		}
-	}
+	w := getWorld(powerSets[r.Intn(len(powerSets))])
 	self := r.Intn(len(w.powers)+1) - 1
 	if self == -1 && r.Intn(4) != 0 {
 		self = r.Intn(len(w.powers))
@@ -1183,6 +1168,240 @@ func genLockScenario(r *rand.Rand) core.Case {
 	return core.Case{Kind: "lock-scenario", Ops: g.ops}
 }
 
+// quorumFrom delivers votes for (t, r, bid) from the given validators
+func (g *gen) votesFrom(t string, r int, bid string, vals []int) {
+	for _, v := range vals {
+		if g.live() {
+			g.do(g.voteOp(t, r, bid, v))
+		}
+	}
+}
+
+// nextRound takes the node from round r to r+1 through nil precommits of the others and the
+// precommit-wait timeout (it precommits whatever its prevote set allows on the way)
+func (g *gen) nextRound(r int) {
+	g.votesFrom("pc", r, "nil", g.others())
+	if g.live() {
+		g.do(fmt.Sprintf("timeout r=%d s=precommitWait", r))
+	}
+}
+
+// propose delivers a proposal for block b (with the given POL round) and the block in round r, unless
+// the node is the proposer itself
+func (g *gen) propose(r, b, pol int, withBlock bool) {
+	by := g.s.w.proposers[min(r, maxRounds)]
+	if by == g.s.self || !g.live() {
+		return
+	}
+	g.do(fmt.Sprintf("prop r=%d b=%d pol=%d by=%d", r, b, pol, by))
+	if withBlock && g.live() {
+		g.do(fmt.Sprintf("block b=%d", b))
+	}
+}
+
+func smallWorld(r *rand.Rand) *world {
+	sets := [][]int64{{1, 1, 1, 1}, {1, 1, 1, 1}, {3, 3, 2, 2, 1, 1, 1}, {4, 3, 3}, {5, 3, 2, 1}}
+	return getWorld(sets[r.Intn(len(sets))])
+}
+
+// genStaleQuorum: lock B, precommit B again in later rounds (re-lock) while the prevotes of the rounds
+// in between are held back, then deliver those OLDER quorums (for nil or another block), then offer a
+// different block in the next round. A correct node keeps prevoting B: the only quorums for something
+// else it has seen are older than its latest precommit.
+func genStaleQuorum(r *rand.Rand) core.Case {
+	w := smallWorld(r)
+	n := len(w.powers)
+	self := r.Intn(n)
+	line := cfgLine(w, self, r.Intn(2) == 0, false, false)
+	s := newSim(line)
+	defer s.close()
+	g := &gen{r: r, s: s, ops: []string{line}}
+	g.do("timeout r=0 s=newHeight")
+	bB := 1 + r.Intn(2)
+	if w.proposers[0] == self {
+		bB = 0
+	}
+	bC := (bB + 1) % nValid
+	// round 0: lock B
+	g.propose(0, bB, -1, true)
+	g.votesFrom("pv", 0, strconv.Itoa(bB), g.others())
+	g.nextRound(0)
+	lockRound := 0
+	type held struct {
+		round int
+		bid   string
+		vals  []int
+	}
+	var back []held
+	round := 1
+	rounds := 2 + r.Intn(3)
+	for k := 0; k < rounds && g.live(); k++ {
+		relock := k == rounds-1 || r.Intn(3) == 0
+		if relock && round > lockRound+1 || (relock && r.Intn(4) == 0) {
+			// a second polka for B: proposal of B with the old lock round as POL round
+			g.propose(round, bB, lockRound, true)
+			if g.live() {
+				g.do(fmt.Sprintf("timeout r=%d s=propose", round))
+			}
+			g.votesFrom("pv", round, strconv.Itoa(bB), g.others())
+			lockRound = round
+		} else {
+			// no polka seen in this round: one prevote for something else arrives, the rest is held back
+			if g.live() {
+				g.do(fmt.Sprintf("timeout r=%d s=propose", round))
+			}
+			bid := "nil"
+			if r.Intn(3) == 0 {
+				bid = strconv.Itoa(bC)
+			}
+			o := g.others()
+			g.votesFrom("pv", round, bid, o[:1])
+			back = append(back, held{round, bid, o[1:]})
+		}
+		g.nextRound(round)
+		round++
+	}
+	// the held-back quorums of older rounds arrive now (some before, some after the new proposal)
+	r.Shuffle(len(back), func(i, j int) { back[i], back[j] = back[j], back[i] })
+	cut := r.Intn(len(back) + 1)
+	for _, h := range back[:cut] {
+		g.votesFrom("pv", h.round, h.bid, h.vals)
+	}
+	g.propose(round, bC, -1, true)
+	for _, h := range back[cut:] {
+		g.votesFrom("pv", h.round, h.bid, h.vals)
+	}
+	if g.live() {
+		g.do(fmt.Sprintf("timeout r=%d s=propose", round))
+	}
+	// one more round for good measure
+	g.nextRound(round)
+	if g.live() {
+		g.propose(round+1, bC, -1, true)
+		if g.live() {
+			g.do(fmt.Sprintf("timeout r=%d s=propose", round+1))
+		}
+	}
+	stat("stale-quorum-cases")
+	return core.Case{Kind: "stale-quorum", Ops: g.ops}
+}
+
+// genLatePOL: a proposal with a POL round arrives without its block, the node prevotes at the propose
+// timeout, the block completes while it sits in step Prevote, and only then the prevotes of the POL
+// round arrive. A correct node does not prevote a second time in that round.
+func genLatePOL(r *rand.Rand) core.Case {
+	w := smallWorld(r)
+	n := len(w.powers)
+	self := r.Intn(n)
+	line := cfgLine(w, self, r.Intn(3) == 0, false, false) // mostly a signer that signs anything
+	s := newSim(line)
+	defer s.close()
+	g := &gen{r: r, s: s, ops: []string{line}}
+	g.do("timeout r=0 s=newHeight")
+	target := 1 + r.Intn(3)
+	for rr := 0; rr < target && g.live(); rr++ {
+		if r.Intn(2) == 0 && g.live() {
+			g.do(fmt.Sprintf("timeout r=%d s=propose", rr))
+		}
+		g.nextRound(rr)
+	}
+	pol := r.Intn(target)
+	b := 1 + r.Intn(2)
+	g.propose(target, b, pol, false)
+	if g.live() {
+		g.do(fmt.Sprintf("timeout r=%d s=propose", target))
+	}
+	steps := []int{0, 1}
+	if r.Intn(2) == 0 {
+		steps = []int{1, 0}
+	}
+	o := g.others()
+	half := len(o) / 2
+	for _, st := range steps {
+		if !g.live() {
+			break
+		}
+		if st == 0 {
+			g.do(fmt.Sprintf("block b=%d", b))
+		} else {
+			g.votesFrom("pv", pol, strconv.Itoa(b), o[:half])
+		}
+	}
+	g.votesFrom("pv", pol, strconv.Itoa(b), o[half:])
+	if g.live() && r.Intn(2) == 0 {
+		g.do(fmt.Sprintf("block b=%d", b))
+	}
+	// and the round goes on
+	g.votesFrom("pv", target, strconv.Itoa(b), g.others())
+	g.nextRound(target)
+	stat("late-pol-cases")
+	return core.Case{Kind: "late-pol", Ops: g.ops}
+}
+
+// genAfterLock: adaptive — run the random generator until the node is locked, then try to make it
+// prevote something else while only quorums of rounds up to its lock round (or no quorum at all)
+// are delivered.
+func genAfterLock(r *rand.Rand) core.Case {
+	w := getWorld(powerSets[r.Intn(len(powerSets))])
+	n := len(w.powers)
+	self := r.Intn(n)
+	line := cfgLine(w, self, r.Intn(2) == 0, false, false)
+	s := newSim(line)
+	defer s.close()
+	g := &gen{r: r, s: s, ops: []string{line}}
+	g.do("timeout r=0 s=newHeight")
+	for tries := 0; tries < 150 && g.live() && s.node.RS().LockedBlock == nil; tries++ {
+		g.move()
+	}
+	if !g.live() || s.node.RS().LockedBlock == nil {
+		return core.Case{Kind: "after-lock", Ops: g.ops}
+	}
+	stat("after-lock-locked")
+	for k := 0; k < 4 && g.live(); k++ {
+		rs := s.node.RS()
+		cur := int(rs.Round)
+		if cur > 28 {
+			break
+		}
+		lr := int(rs.LockedRound)
+		locked := s.blockName(rs.LockedBlock)
+		other := strconv.Itoa((func() int {
+			for i := 0; i < nValid; i++ {
+				if strconv.Itoa(i) != locked {
+					return i
+				}
+			}
+			return 0
+		})())
+		// quorums for something else, but only in rounds <= the lock round
+		if lr >= 0 && r.Intn(2) == 0 {
+			bid := "nil"
+			if r.Intn(2) == 0 {
+				bid = other
+			}
+			g.votesFrom("pv", r.Intn(lr+1), bid, g.others())
+		}
+		g.nextRound(cur)
+		if !g.live() {
+			break
+		}
+		nr := int(s.node.RS().Round)
+		ob, _ := strconv.Atoi(other)
+		pol := -1
+		if r.Intn(3) == 0 && lr >= 0 {
+			pol = r.Intn(lr + 1)
+		}
+		g.propose(nr, ob, pol, true)
+		if g.live() {
+			g.do(fmt.Sprintf("timeout r=%d s=propose", nr))
+		}
+		// a minority prevotes the other block in the new round
+		o := g.others()
+		g.votesFrom("pv", nr, other, o[:1])
+	}
+	return core.Case{Kind: "after-lock", Ops: g.ops}
+}
+
 func main() {
 	// C02_CFG="1,1,1,1:self:hrs" prints the cfg line for that configuration (for hand-written corpus cases)
 	if e := os.Getenv("C02_CFG"); e != "" {
@@ -1209,6 +1428,15 @@ func main() {
 			for i := 0; i < n/6; i++ {
 				emit(genLockScenario(r))
 			}
+			for i := 0; i < n/6; i++ {
+				emit(genStaleQuorum(r))
+			}
+			for i := 0; i < n/6; i++ {
+				emit(genLatePOL(r))
+			}
+			for i := 0; i < n/6; i++ {
+				emit(genAfterLock(r))
+			}
 			if tier == "thorough" {
 				for i := 0; i < n/10; i++ {
 					emit(genCase(r, "node", 150, 260)) // long runs reaching higher rounds
@@ -1225,24 +1453,18 @@ func main() {
 			}
 			return false
 		},
-		Rule: "a real consensus.State (kvstore app, 3..7 validators from 7 power configurations incl. one validator above 2/3, FilePV or MockPV signer or no key, in-memory stores, nil WAL, recording ticker) driven synchronously; generated adaptively against the live node: proposals by the right/wrong proposer with POL rounds (-2,-1,earlier,round-1,>=round), complete blocks (3 valid, 1 invalid, 2 unknown ids), single votes and quorum bursts for current/earlier/future/catch-up rounds from 3 peers incl. equivocation, bad signatures, out-of-range indices, peer maj23 claims, timeouts (scheduled, stale, arbitrary, and in kind=future for rounds not reached), txs-available; scripted lock-then-competing-polka scenarios. Non-trivial = the node signed at least one vote; distinct by hash of the op list",
+		Rule: "a real consensus.State (kvstore app, 3..7 validators from 7 power configurations incl. one validator above 2/3, FilePV or MockPV signer or no key, in-memory stores, nil WAL, recording ticker) driven synchronously; generated adaptively against the live node: proposals by the right/wrong proposer with POL rounds (-2,-1,earlier,round-1,>=round), complete blocks (3 valid, 1 invalid, 2 unknown ids), single votes and quorum bursts for current/earlier/future/catch-up rounds from 3 peers incl. equivocation, bad signatures, out-of-range indices, peer maj23 claims, timeouts (scheduled, stale, arbitrary, and in kind=future for rounds not reached), txs-available; scripted scenarios: lock-then-competing-polka, stale-quorum (lock, re-lock in later rounds, then the held-back older quorums for nil/another block, then a different proposal), late-pol (proposal with POL round, prevote at timeout, block completes in step Prevote, then the POL prevotes), after-lock (adaptive: once locked, only quorums of rounds up to the lock round and competing proposals). Non-trivial = the node signed at least one vote; distinct by hash of the op list",
 		Assumptions: []string{
 			"one height; a block id stands for (hash, part-set header) of a one-part block; signatures ideal (a vote either verifies for its validator or not)",
 			"own messages are processed in FIFO order right after the input that caused them (the 1000-slot internal queue never overflows)",
-			"proposer rotation enters the model as the table of proposers after k priority increments; the harness checks for every power configuration used that IncrementProposerPriority(k) equals k single increments (cf. C08)",
+			"proposer rotation enters the model as the table of proposers after k single priority increments (enterNewRound performs one increment per round entered or skipped)",
 			"timeouts for rounds the node has not reached (never produced by the real ticker) are exercised in kind=future for model/implementation agreement only; the oracle applies the one-per-round clause there",
 		},
 		Parallel: 8,
 		Extra: func() map[string]interface{} {
 			statMtx.Lock()
 			defer statMtx.Unlock()
-			dropped := []string{}
-			for _, p := range powerSets {
-				if !getWorld(p).pathIndep {
-					dropped = append(dropped, powersKey(p))
-				}
-			}
-			return map[string]interface{}{"max_round_reached": maxRound, "generator_events": statCount, "power_sets_dropped_path_dependent": dropped}
+			return map[string]interface{}{"max_round_reached": maxRound, "generator_events": statCount}
 		},
 	})
 }
